@@ -60,6 +60,14 @@ R_strftime = _time_mod.strftime
 R_datetime = _dt_mod.datetime
 
 
+LIVE_SESSIONS = []  # worlds with a long-lived simulated process (ended by the driver after each run)
+
+
+def end_all_sessions():
+    for w in list(LIVE_SESSIONS):
+        w.end_session()
+
+
 class HarnessError(Exception):
     """Something went wrong in the simulator itself (never reported as a VIOLATION)."""
 
@@ -119,6 +127,11 @@ class Clock:
 
     def effect(self):
         self.now_us += self.effect_cost_us
+
+    read_cost_us = 0
+
+    def io(self):
+        self.now_us += self.read_cost_us
 
 
 # --- snapshots (parent side, real os) ----------------------------------------------------------------------
@@ -180,6 +193,7 @@ class World:
         "clock_profile": "calm",
         "wbuf": 8192,
         "effect_cost_us": 20,
+        "read_cost_us": 0,  # simulated time per read() call on the disk image (I/O throughput)
         "root_spelling": "abs",
     }
 
@@ -250,7 +264,111 @@ class World:
         """run a library call 'module:function' with args inside the simulated process"""
         return self.run_child(("call", fn_name, args), cwd=cwd, hooks=hooks, timeout=timeout)
 
+    def _session_exchange(self, job, cwd, kill, timeout):
+        """send one job to the world's long-lived simulated process (started on demand); returns raw result bytes"""
+        sess = getattr(self, "_session", None)
+        if sess is None:
+            c_r, c_w = os.pipe()
+            r_r, r_w = os.pipe()
+            sys.stdout.flush()
+            sys.stderr.flush()
+            pid = os.fork()
+            if pid == 0:
+                try:
+                    os.close(c_w)
+                    os.close(r_r)
+                    _session_main(self, c_r, r_w)
+                finally:
+                    os._exit(97)
+            os.close(c_r)
+            os.close(r_w)
+            sess = self._session = {"pid": pid, "w": c_w, "r": r_r}
+            LIVE_SESSIONS.append(self)
+        msg = pickle.dumps((_world_state(self), job, cwd, kill))
+        os.write(sess["w"], len(msg).to_bytes(8, "big") + msg)
+        deadline = R_time() + timeout
+        buf = b""
+        need = None
+        while True:
+            left = deadline - R_time()
+            if left <= 0:
+                self.end_session()
+                return None
+            r, _, _ = select.select([sess["r"]], [], [], min(left, 5.0))
+            if not r:
+                continue
+            b = os.read(sess["r"], 1 << 20)
+            if not b:
+                self.end_session()
+                return buf[8:] if buf else b""
+            buf += b
+            if need is None and len(buf) >= 8:
+                need = int.from_bytes(buf[:8], "big")
+            if need is not None and len(buf) >= 8 + need:
+                return buf[8: 8 + need]
+
+    def end_session(self):
+        sess = getattr(self, "_session", None)
+        if sess is None:
+            return
+        self._session = None
+        for fd in (sess["w"], sess["r"]):
+            try:
+                os.close(fd)
+            except OSError:
+                pass
+        try:
+            os.kill(sess["pid"], signal.SIGKILL)
+        except ProcessLookupError:
+            pass
+        try:
+            os.waitpid(sess["pid"], 0)
+        except ChildProcessError:
+            pass
+        if self in LIVE_SESSIONS:
+            LIVE_SESSIONS.remove(self)
+
     def run_child(self, job, cwd=None, kill=None, hooks=None, timeout=60):
+        if self.spec.get("process_model") == "session" and not hooks and job[0] in ("cmd", "pyfunc"):
+            return self._run_in_session(job, cwd, kill, timeout)
+        return self._run_forked(job, cwd, kill, hooks, timeout)
+
+    def _run_in_session(self, job, cwd, kill, timeout):
+        self.cmd_count += 1
+        before = snapshot(self.base, with_hash=False)
+        start_us = self.clock_us
+        data = self._session_exchange(job, cwd or self.default_cwd(), kill, timeout)
+        if data is None:
+            res = CmdResult({"outcome": ("hang", None), "stdout": "", "stderr": "", "effects": [], "reads": [],
+                             "audit": [], "clock_us": self.clock_us, "clock_reads": self.clock_reads, "extra": {}})
+        else:
+            if not data:
+                raise HarnessError(f"session process died without a result job={job!r}")
+            res = CmdResult(pickle.loads(data))
+            if res.outcome[0] == "harness":
+                raise HarnessError("inside simulated session process: " + str(res.outcome[1]))
+            if res.outcome[0] == "abort":
+                res.outcome = ("abort", str(res.outcome[1]).replace(self.sandbox, "<SB>"))
+            if res.outcome[0] == "killed":
+                self.end_session()
+        return self._finish_run(res, before, start_us)
+
+    def _finish_run(self, res, before, start_us):
+        self.clock_us = max(self.clock_us, res.clock_us)
+        self.clock_reads = res.clock_reads
+        res.start_us = start_us
+        res.end_us = self.clock_us
+        self.sim_us_total += res.end_us - start_us
+        after = snapshot(self.base, with_hash=False)
+        added, removed, changed = snapshot_diff(before, after)
+        res.touched = (added, removed, changed)
+        for rel in added + changed:
+            p = os.path.join(self.base, rel) if rel != "." else self.base
+            if os.path.lexists(p) and not os.path.islink(p):
+                self.set_mtime_us(p, self.clock_us)
+        return res
+
+    def _run_forked(self, job, cwd=None, kill=None, hooks=None, timeout=60):
         self.cmd_count += 1
         before = snapshot(self.base, with_hash=False)
         start_us = self.clock_us
@@ -301,22 +419,11 @@ class World:
                 raise HarnessError("inside simulated process: " + str(res.outcome[1]))
             if res.outcome[0] == "abort":
                 res.outcome = ("abort", str(res.outcome[1]).replace(self.sandbox, "<SB>"))
-        self.clock_us = max(self.clock_us, res.clock_us)
-        self.clock_reads = res.clock_reads
-        res.start_us = start_us
-        res.end_us = self.clock_us
-        self.sim_us_total += res.end_us - start_us
         # mtime hygiene: whatever the command created / touched carries kernel time -> restamp to sim time
-        after = snapshot(self.base, with_hash=False)
-        added, removed, changed = snapshot_diff(before, after)
-        res.touched = (added, removed, changed)
-        for rel in added + changed:
-            p = os.path.join(self.base, rel) if rel != "." else self.base
-            if os.path.lexists(p) and not os.path.islink(p):
-                self.set_mtime_us(p, self.clock_us)
-        return res
+        return self._finish_run(res, before, start_us)
 
     def destroy(self):
+        self.end_session()
         import shutil
 
         shutil.rmtree(self.sandbox, ignore_errors=True)
@@ -420,6 +527,10 @@ def _die():
 
 
 def _send_result_and_exit():
+    _send_result(exit_after=True)
+
+
+def _send_result(exit_after=True):
     cs = CS
     out = {
         "outcome": cs.outcome,
@@ -439,11 +550,14 @@ def _send_result_and_exit():
         out["value"] = repr(out.get("value"))
         out["extra"] = {"pickle_error": repr(e)}
         data = pickle.dumps(out)
+    if getattr(cs, "session", False):
+        data = len(data).to_bytes(8, "big") + data
     view = memoryview(data)
     while view:
         n = os.write(cs.wfd, view)
         view = view[n:]
-    os._exit(0)
+    if exit_after:
+        os._exit(0)
 
 
 class SimWriteFile:
@@ -616,6 +730,7 @@ class SimReadFile:
             if want < n and data:
                 CS.extra["short_reads"] = CS.extra.get("short_reads", 0) + 1
         CS.reads[self._rel] = CS.reads.get(self._rel, 0) + len(data)
+        CS.clock.io()
         return data
 
     def readinto(self, b):
@@ -927,17 +1042,11 @@ def preload():
     _load_commands()
 
 
-def _child_main(world, job, cwd, kill, hooks, wfd):
-    global CS
-    cs = CS = _ChildState()
-    cs.wfd = wfd
-    cs.base = world.base
-    cs.env_seed = h64(world.spec["env_seed"], "cmd", world.cmd_count)
-    cs.read_profile = world.spec["read_profile"]
-    cs.enum_profile = world.spec["enum_profile"]
-    cs.wbuf = world.spec["wbuf"]
-    cs.clock = Clock(world.clock_us, world.clock_reads, world.spec["env_seed"], world.spec["clock_profile"],
-                     world.spec.get("effect_cost_us", 20))
+def _child_reset(cs, world_state, kill):
+    """per-command state of the simulated process"""
+    cs.env_seed = h64(world_state["env_seed"], "cmd", world_state["cmd_count"])
+    cs.clock.now_us = world_state["clock_us"]
+    cs.clock.reads = world_state["clock_reads"]
     cs.kill = kill
     cs.effects = []
     cs.reads = {}
@@ -950,62 +1059,98 @@ def _child_main(world, job, cwd, kill, hooks, wfd):
     cs.on_effect = None
     cs.stdout = io.StringIO()
     cs.stderr = io.StringIO()
+    sys.stdout = cs.stdout
+    sys.stderr = cs.stderr
+
+
+def _child_run_job(cs, job, cwd, hooks):
+    """runs one job; sets cs.outcome / cs.value (never returns normally on a kill)"""
+    import ascmhl.logger as lg
+
+    lg.verbose_logging = False
+    lg.debug_logging = False
+    os.chdir(cwd)
+    try:
+        if job[0] == "cmd":
+            argv = job[1]
+            cmd = _load_commands()[argv[0]]
+            runner = hooks.get("runner")
+            if runner is not None:
+                runner(cs, cmd, argv)
+            else:
+                cmd.main(args=list(argv[1:]), prog_name="ascmhl " + argv[0], standalone_mode=True)
+            cs.outcome = ("exit", 0)
+        elif job[0] == "call":
+            modname, fname = job[1].split(":")
+            import importlib
+
+            mod = importlib.import_module(modname)
+            fn = mod
+            for part in fname.split("."):
+                fn = getattr(fn, part)
+            cs.value = fn(*job[2])
+            cs.outcome = ("exit", 0)
+        elif job[0] == "pyfunc":
+            cs.value = job[1](cs, *job[2])
+            if cs.outcome is None:
+                cs.outcome = ("exit", 0)
+    except SystemExit as e:
+        code = e.code
+        if code is None:
+            code = 0
+        if not isinstance(code, int):
+            print(code, file=cs.stderr)
+            code = 1
+        cs.outcome = ("exit", code)
+    except BaseException as e:
+        tb = traceback.extract_tb(e.__traceback__)
+        where = ""
+        for fr in reversed(tb):
+            if "/ascmhl/" in fr.filename:
+                where = f"{os.path.basename(fr.filename)}:{fr.name}"
+                break
+        cs.outcome = ("abort", f"{type(e).__name__}: {e}"[:300])
+        cs.extra["abort_type"] = type(e).__name__
+        cs.extra["abort_where"] = where
+        cs.extra["abort_tb"] = "".join(traceback.format_exception(type(e), e, e.__traceback__))[-3000:]
+
+
+def _world_state(world):
+    return {"env_seed": world.spec["env_seed"], "cmd_count": world.cmd_count, "clock_us": world.clock_us,
+            "clock_reads": world.clock_reads}
+
+
+def _child_setup(world, wfd):
+    global CS
+    cs = CS = _ChildState()
+    cs.wfd = wfd
+    cs.base = world.base
+    cs.read_profile = world.spec["read_profile"]
+    cs.enum_profile = world.spec["enum_profile"]
+    cs.wbuf = world.spec["wbuf"]
+    cs.clock = Clock(world.clock_us, world.clock_reads, world.spec["env_seed"], world.spec["clock_profile"],
+                     world.spec.get("effect_cost_us", 20))
+    cs.clock.read_cost_us = world.spec.get("read_cost_us", 0)
+    cs.session = False
+    _child_reset(cs, _world_state(world), None)
+    return cs
+
+
+def _child_main(world, job, cwd, kill, hooks, wfd):
+    cs = None
     try:
         try:
-            import ascmhl.logger as lg
-
-            lg.verbose_logging = False
-            lg.debug_logging = False
-            os.chdir(cwd)
+            cs = _child_setup(world, wfd)
+            cs.kill = kill
             _install_patches(cs)
             sys.stdout = cs.stdout
             sys.stderr = cs.stderr
         except BaseException:
+            if cs is None:
+                os._exit(96)
             cs.outcome = ("harness", traceback.format_exc())
             _send_result_and_exit()
-        try:
-            if job[0] == "cmd":
-                argv = job[1]
-                cmd = _load_commands()[argv[0]]
-                runner = hooks.get("runner")
-                if runner is not None:
-                    runner(cs, cmd, argv)
-                else:
-                    cmd.main(args=list(argv[1:]), prog_name="ascmhl " + argv[0], standalone_mode=True)
-                cs.outcome = ("exit", 0)
-            elif job[0] == "call":
-                modname, fname = job[1].split(":")
-                import importlib
-
-                mod = importlib.import_module(modname)
-                fn = mod
-                for part in fname.split("."):
-                    fn = getattr(fn, part)
-                cs.value = fn(*job[2])
-                cs.outcome = ("exit", 0)
-            elif job[0] == "pyfunc":
-                cs.value = job[1](cs, *job[2])
-                if cs.outcome is None:
-                    cs.outcome = ("exit", 0)
-        except SystemExit as e:
-            code = e.code
-            if code is None:
-                code = 0
-            if not isinstance(code, int):
-                print(code, file=cs.stderr)
-                code = 1
-            cs.outcome = ("exit", code)
-        except BaseException as e:
-            tb = traceback.extract_tb(e.__traceback__)
-            where = ""
-            for fr in reversed(tb):
-                if "/ascmhl/" in fr.filename:
-                    where = f"{os.path.basename(fr.filename)}:{fr.name}"
-                    break
-            cs.outcome = ("abort", f"{type(e).__name__}: {e}"[:300])
-            cs.extra["abort_type"] = type(e).__name__
-            cs.extra["abort_where"] = where
-            cs.extra["abort_tb"] = "".join(traceback.format_exception(type(e), e, e.__traceback__))[-3000:]
+        _child_run_job(cs, job, cwd, hooks)
         _send_result_and_exit()
     except BaseException:
         try:
@@ -1016,9 +1161,43 @@ def _child_main(world, job, cwd, kill, hooks, wfd):
             os._exit(98)
 
 
+def _session_main(world, cmd_rfd, wfd):
+    """a long-lived simulated process that executes several commands one after the other (library-client use:
+    module-level state of the code under test survives from one command to the next)"""
+    cs = None
+    try:
+        cs = _child_setup(world, wfd)
+        cs.session = True
+        _install_patches(cs)
+        while True:
+            head = b""
+            while len(head) < 8:
+                b = os.read(cmd_rfd, 8 - len(head))
+                if not b:
+                    os._exit(0)
+                head += b
+            n = int.from_bytes(head, "big")
+            data = b""
+            while len(data) < n:
+                b = os.read(cmd_rfd, n - len(data))
+                if not b:
+                    os._exit(0)
+                data += b
+            state, job, cwd, kill = pickle.loads(data)
+            _child_reset(cs, state, kill)
+            _child_run_job(cs, job, cwd, {})
+            _send_result(exit_after=False)
+    except BaseException:
+        try:
+            if cs is not None:
+                cs.outcome = ("harness", traceback.format_exc())
+                cs.value = None
+                _send_result_and_exit()
+        finally:
+            os._exit(98)
+
+
 # --- environment operations (parent side, real os) ------------------------------------------------------------
-
-
 def _expand(world, token):
     if isinstance(token, str):
         if token.startswith("@R"):
@@ -1201,6 +1380,7 @@ def clone_world(world, sandbox):
     w.cmd_count = world.cmd_count
     w.fault_counts = world.fault_counts  # shared counters
     w.sim_us_total = 0
+    w._session = None
     R_makedirs(sandbox, exist_ok=True)
     copy_world_tree(world.base, w.base)
     return w
